@@ -57,7 +57,7 @@ def result_uses(F, b):
     return out
 
 
-ORDER = ["unwrap", "err-arm-panics", "dropped", "discarded", "err-arm-swallowed", "unrecognised", "stored", "propagated"]
+ORDER = ["unwrap", "err-arm-panics", "dropped", "discarded", "err-arm-swallowed", "err-replaced", "unrecognised", "stored", "propagated"]
 
 
 def _consume(b, l, def_site, depth):
@@ -152,6 +152,9 @@ def _match_verdict(b, dsite, l, depth=0):
                     if k == "assign":
                         e = b._expr_of_def((s, k, p))
                         if e.k == "agg" and e.x.get("variant") == "Err":
+                            if e.a and not any(w.k == "downcast" and w.x.get("variant") == "Err" for w in e.a[0].walk()):
+                                # `_ => return Err(Error::SomethingElse)`: an error is returned, but not this one
+                                return ("err-replaced", "the Err arm returns a different, constant error: the failure itself is not carried")
                             return ("propagated", "match: Err arm returns Err(..)")
             # the Err arm rebuilds an Err (possibly of a converted error) into another local, as the
             # definition of map / map_err / and_then / an explicit match does: follow that local
